@@ -52,6 +52,15 @@ def _corpus():
     # + the canonical grammar sentences (12 am / 12 pm, every family), so that case and separator variants hit every production
     for _, s_ in grammar.sentences():
         out.append((s_, "2018-03-07T12:43"))
+    from .. import vocab
+
+    for _, alts in list(vocab.dows()) + list(vocab.months()):
+        for a in alts:
+            out.append((a, "2018-03-07T12:43"))
+            out.append(("next " + a if len(a) > 2 else a + " 14 uhr", "2018-03-07T12:43"))
+    for _, alts in vocab.pods():
+        for a in alts[:12]:
+            out.append((a, "2018-03-07T12:43"))
     for h in (1, 11, 12):
         for ap in ("am", "pm", "a.m.", "p.m."):
             out.append(("tomorrow {} {}".format(h, ap), "2018-03-07T12:43"))
